@@ -381,6 +381,15 @@ pub fn run_c16() -> Report {
                 all.extend(chunk.iter().cloned());
                 cb.push_raw(all);
             }
+            // the LAST line a block prints is a line like any other: blocks whose final output is a payload that ends in (or consists
+            // of) white space, a line break, a NUL, or that is ordinary - each behind an ordinary line of the same block
+            for (k, tail) in [&b"tail  "[..], b" ", b"\t", b"abc\t", b"  both  ", "abc\u{a0}".as_bytes(), "abc\u{3000}".as_bytes(), "abc\u{2028}".as_bytes(), "abc\u{85}".as_bytes(), b"line\n", b"nul\0", b"plain"].into_iter().enumerate() {
+                let h = cb.next_height();
+                cb.push_raw(vec![
+                    coinbase(h, 4, vec![pay(2, 50 * COIN_VALUE), TxOut { value: 0, script: script::op_return(format!("head of block {}", h).as_bytes()) }]),
+                    Tx { version: 1, segwit: false, inputs: vec![TxIn::spend([0xed; 32], k as u32)], outputs: vec![TxOut { value: 1, script: others[k % others.len()].clone() }, TxOut { value: 0, script: script::op_return(tail) }], locktime: 0, wide: 0 },
+                ]);
+            }
             let world = World::simple(c, &cb.blocks, 0);
             // every other case at trace verbosity: the printed lines are the same, the log lines around them are not judged
             let mut spec = RunSpec::new(c.name, "opreturn").range(*s0, *e0);
